@@ -100,14 +100,14 @@ func replayCluster(nodes int, hist []core.VEvent, e *core.VEvent, mut *core.Muta
 func runCluster(prop string) *ShardResult {
 	res := newResult()
 	thorough := *fTier == "thorough"
-	nodes, depth := 2, 6
+	nodes, depth := 2, 7
 	if thorough {
 		nodes, depth = 3, 7
 	}
 	if prop == "C17" {
-		depth = 5
+		depth = 6
 		if thorough {
-			depth = 6
+			nodes, depth = 3, 6
 		}
 	}
 	deadline := time.Now().Add(*fBudget)
@@ -277,9 +277,9 @@ func twinAlphabet(first, last uint64) []core.TOp {
 func runC18() *ShardResult {
 	res := newResult()
 	thorough := *fTier == "thorough"
-	depth, bound, nCP := 4, 2, 3
+	depth, bound, nCP := 5, 3, 3
 	if thorough {
-		depth, bound, nCP = 5, 3, 4
+		depth, bound, nCP = 6, 4, 4
 	}
 	deadline := time.Now().Add(*fBudget * 2 / 3)
 	res.Bounds["twin_depth"] = depth
